@@ -511,7 +511,14 @@ func (s *sim) getCStart(a Action) *client {
 	if a.Proto10 {
 		proto = "HTTP/1.0"
 	}
-	if a.Host != "" {
+	if a.Host != "" && !isASCII(a.Host) {
+		// net/http refuses bytes above 0x7f in a Host header; a host name that is
+		// not plain ASCII reaches the server in an absolute-form request target
+		// (as a proxy-style client sends it), which takes precedence over Host
+		target = "https://" + a.Host + target
+		hdr += "Host: ignored.invalid\r\n"
+		s.probes["host_not_ascii_in_request_target"]++
+	} else if a.Host != "" {
 		hdr += "Host: " + a.Host + "\r\n"
 	}
 	req := fmt.Sprintf("%s %s %s\r\n%sConnection: close\r\n\r\n%s", method, target, proto, hdr, body)
@@ -648,6 +655,15 @@ func (a Action) Port443Effective(b *boot) bool { return b.act.Port443 }
 
 // asciiHost is the IDNA-ASCII form of the Host values the generator uses
 // (known pairs, computed independently of the code's library).
+func isASCII(h string) bool {
+	for i := 0; i < len(h); i++ {
+		if h[i] >= 0x80 {
+			return false
+		}
+	}
+	return true
+}
+
 func asciiHost(h string) string {
 	switch h {
 	case "bücher.example":
